@@ -92,3 +92,7 @@ func (cx *Clients) Expire(now time.Time, ip uip.Uip, duid d.Duid) error {
 func (c *client) Uip() uip.Uip {
 	return c.ip
 }
+
+func (c *client) LeasedUntil() time.Time {
+	return c.leasedUntil
+}
